@@ -121,7 +121,10 @@ class Socket:
     def recv_multipart(self, flags=0):
         if not self.inq:
             raise SimHarnessError('recv would block: the code under test received without polling first')
-        return self.inq.pop(0)
+        msg = self.inq.pop(0)
+        if b'"mid":-2' in (msg[1] if self.typ == SUB and len(msg) > 1 else msg[0]):    # an out-of-band (exit) message was actually read
+            self.world.log.append(('oob_read', self.world.now, self.actor.name, self.actor.inc, self.typ, msg))
+        return msg
 
     def close(self, linger=None):
         if self.closed:
